@@ -15,6 +15,7 @@ func init() {
 		Phases: []phase{
 			{Name: "core", Pkg: "./workers/c16", QuickShards: 6, ThorShards: 10, QuickTO: 6 * time.Minute},
 			{Name: "app", Pkg: "./workers/c16", QuickShards: 6, ThorShards: 10, QuickTO: 6 * time.Minute},
+			{Name: "client", Pkg: "./workers/c16", QuickShards: 6, ThorShards: 10, QuickTO: 6 * time.Minute},
 		},
 	})
 }
